@@ -49,7 +49,7 @@ CHECKS = {
    technique="deterministic simulation: token-passing scheduler over real goroutines (seeded interleavings, stalls), simulated file/seek faults and cancellation, sequential reference model, tape-minimised replay"),
 }
 
-HOOK_COMMITS = ["d39f006", "035e079", "6cff694", "3c5fbe4", "85aa2e6", "3e5ac0a", "e9ba2de", "7dcba52"]
+HOOK_COMMITS = ["d39f006", "035e079", "6cff694", "3c5fbe4", "85aa2e6", "3e5ac0a", "e9ba2de", "7dcba52", "b06233f", "d12a08c"]
 
 def main():
     checks = []
